@@ -156,8 +156,60 @@ def interrupt_rule(ctx, m):
         else:
             ctx.limit('accept_interrupt/' + cfg, 'not decided: ' + str(r['detail'][:1])[:400])
 
+def selection_rule(ctx, repo):
+    ctx.rule('C06.5-selection', 'every tool pairs the C class with its Python fallback of the same kind (plain with plain, contended with contended), selected by the cmio test', floor=8)
+    PAIRS = {('CSimulator', 'Simulator'): 'plain', ('CCMIOSimulator', 'CMIOSimulator'): 'cont'}
+    KIND = {'Simulator': 'plain', 'CSimulator': 'plain', 'CMIOSimulator': 'cont', 'CCMIOSimulator': 'cont'}
+    n_sites = 0
+    for mod in repo.all_modules():
+        if 'simulator_cls' not in mod.src:
+            continue
+        def visit(stmts, cmio):
+            nonlocal n_sites
+            for st in stmts:
+                if isinstance(st, ast.If):
+                    t = ast.unparse(st.test)
+                    if 'cmio' in t.lower() and 'python' not in t.lower():
+                        neg = isinstance(st.test, ast.UnaryOp) and isinstance(st.test.op, ast.Not)
+                        visit(st.body, 'plain' if neg else 'cont')
+                        visit(st.orelse, 'cont' if neg else 'plain')
+                    else:
+                        visit(st.body, cmio)
+                        visit(st.orelse, cmio)
+                    continue
+                for fld in ('body', 'orelse', 'finalbody'):
+                    sub = getattr(st, fld, None)
+                    if isinstance(sub, list) and sub and isinstance(sub[0], ast.stmt):
+                        visit(sub, cmio)
+                if isinstance(st, ast.Assign) and any(isinstance(t, ast.Name) and t.id == 'simulator_cls' for t in st.targets):
+                    n_sites += 1
+                    v = st.value
+                    where = '%s:%d' % (mod.relpath, st.lineno)
+                    if isinstance(v, ast.BoolOp) and isinstance(v.op, ast.Or) and len(v.values) == 2 and all(isinstance(x, ast.Name) for x in v.values):
+                        pair = (v.values[0].id, v.values[1].id)
+                        kind = PAIRS.get(pair)
+                        if kind is None:
+                            ctx.violation('selection %s' % where, where, 'simulator class is chosen as `%s`: a C class is paired with a Python class of a different kind' % ast.unparse(v))
+                        elif cmio is not None and kind != cmio:
+                            ctx.violation('selection %s' % where, where, '`%s` is selected on the %s branch of the cmio test' % (ast.unparse(v), 'contended' if cmio == 'cont' else 'plain'))
+                        else:
+                            ctx.ok({'site': where, 'choice': ast.unparse(v)})
+                    elif isinstance(v, ast.Name) and v.id in KIND:
+                        if cmio is not None and KIND[v.id] != cmio:
+                            ctx.violation('selection %s' % where, where, '%s is selected on the %s branch of the cmio test' % (v.id, 'contended' if cmio == 'cont' else 'plain'))
+                        else:
+                            ctx.ok({'site': where, 'choice': v.id})
+                    else:
+                        ctx.ok({'site': where, 'choice': ast.unparse(v)[:40], 'note': 'not a class literal'})
+        for f in ast.walk(mod.tree):
+            if isinstance(f, ast.FunctionDef):
+                visit(f.body, None)
+    if n_sites < 8:
+        raise pyfacts.FactError('expected at least 8 simulator class selection sites, found %d' % n_sites)
+
 def run(ctx):
     repo = pyfacts.Repo(ctx.repo_root)
+    selection_rule(ctx, repo)
     m = simfacts.SimModel(repo)
     table_rule(ctx, m)
     override_rule(ctx, m)
